@@ -215,6 +215,8 @@ _n = [0]
 
 CHILD = r"""
 import json, os, sys
+import faulthandler
+faulthandler.dump_traceback_later(280, exit=True)      # a child that outlives its parent (a killed shard) ends itself
 sys.path[:0] = [%(repo)r, %(home)r]
 os.chdir(%(cwd)r)
 from checks import c16
@@ -238,7 +240,7 @@ def solo_in_child(scripts, shared, adapter, files_tag):
     json.dump(dict(scripts={str(i): s for i, s in scripts.items()}, shared=shared, adapter=adapter, files_tag=files_tag), open(sp, "w"))
     code = CHILD % dict(repo=os.environ["VERIF_REPO"], home=os.environ["VERIF_HOME"], cwd=os.getcwd(), spec=sp, out=op)
     try:
-        p = subprocess.run([sys.executable, "-W", "ignore", "-c", code], timeout=300, capture_output=True)
+        p = subprocess.run([sys.executable, "-W", "ignore", "-c", code], timeout=300, capture_output=True, start_new_session=True)
         if p.returncode != 0 or not os.path.exists(op):
             return None, p.stderr.decode()[-400:]
         raw = json.load(open(op))
